@@ -156,17 +156,17 @@ again:
 		return
 	}
 	cl, cr := errClass(errL), errClass(errR)
-	// diff / sum-diff read both sides concurrently: when one read fails for another reason (here: an
+	// diff / sum-diff / copy read both sides concurrently: when one read fails for another reason (here: an
 	// archive id some file does not have) AND a side is missing, which error wins depends on goroutine
-	// order - "diff found" and "error" are then both legitimate outcomes
+	// order - "diff found", "not-exist" and "error" are then all legitimate outcomes
 	minArch := len(l.Archives)
 	for _, f := range append(append([]TreeFile(nil), c.Files...), c.DestFiles...) {
 		if n := len(f.Spec.L.Archives); n < minArch {
 			minArch = n
 		}
 	}
-	if cl != cr && (c.Cmd == "diff" || c.Cmd == "sum-diff") && c.ArchiveID >= minArch &&
-		(cl == "diff-found" || cl == "error") && (cr == "diff-found" || cr == "error") {
+	faulty := func(k string) bool { return k == "diff-found" || k == "error" || k == "not-exist" }
+	if cl != cr && (c.Cmd == "diff" || c.Cmd == "sum-diff" || c.Cmd == "copy") && c.ArchiveID >= minArch && faulty(cl) && faulty(cr) {
 		ev.Count(HashJSON(c), false, "cmd="+c.Cmd, "order-dependent-double-fault")
 		return nil
 	}
@@ -340,6 +340,25 @@ func genC12(t *rapid.T) C12Case {
 	}
 	if c.Cmd == "diff" && rapid.IntRange(0, 1).Draw(t, "destRemote") == 0 {
 		c.DestRemote = true
+		if !strings.ContainsAny(c.Rel, "*?[") && rapid.Bool().Draw(t, "bigResponses") {
+			// large responses on both sides keep the two concurrent handlers busy for longer
+			big := Layout{Archives: []Arch{{Step: 1, Points: rapid.Int64Range(1500, 4000).Draw(t, "bigPoints")}}, Method: 2}
+			for i := range c.Files {
+				if c.Files[i].Dir+"/"+c.Files[i].Name == c.Rel {
+					c.Files[i].Spec = FileSpec{L: big, Fill: big.Archives[0].Points, FillBase: 1}
+				}
+			}
+			found := false
+			for i := range c.DestFiles {
+				if c.DestFiles[i].Dir+"/"+c.DestFiles[i].Name == c.Rel {
+					c.DestFiles[i].Spec = FileSpec{L: big, Fill: big.Archives[0].Points, FillBase: 7}
+					found = true
+				}
+			}
+			if !found && exists {
+				c.DestFiles = append(c.DestFiles, TreeFile{Dir: pick.Dir, Name: pick.Name, Spec: FileSpec{L: big, Fill: big.Archives[0].Points, FillBase: 7}})
+			}
+		}
 	}
 	if c.Cmd != "copy" && rapid.IntRange(0, 3).Draw(t, "phase2") == 0 {
 		// tree change below the pattern's first wildcard level, then the same command again
